@@ -185,12 +185,13 @@ def _f2s(v):
     'convert float to string without scientific notation'
 
     s, sep, e = str(v).partition('e')
-    a, sep, b = s.partition('.')
+    sign = '-' if s.startswith('-') else ''
+    a, sep, b = s[len(sign):].partition('.')
     pos = len(a) + int(e or 0)
     s = (a + b).rstrip('0')
-    return s.ljust(pos, '0') if pos >= len(s) \
-        else '0.' + '0' * -pos + s if pos <= 0 \
-        else s[:pos] + '.' + s[pos:]
+    return sign + (s.ljust(pos, '0') if pos >= len(s)
+        else '0.' + '0' * -pos + s if pos <= 0
+        else s[:pos] + '.' + s[pos:])
 
 
 # vim:sw=4:sts=4:et
